@@ -54,7 +54,12 @@ VARIABLES
 
 vars == <<sid, pc, round, xr, inited, calls, cont, err, xrefs, rdict>>
 
-sc == Scenarios[sid]      \* the scenario
+\* TLC re-evaluates a constant that a configuration substitutes by an operator at every
+\* use, but evaluates a constant definition once: the formulas below use these.
+ScenarioSeq == Scenarios
+TheMeta == Meta
+TheDev == Dev
+sc == ScenarioSeq[sid]      \* the scenario
 
 ----------------------------------------------------------------------------
 \* generic helpers
@@ -80,7 +85,7 @@ Kind(s, o) == s.objs[o].kind
 Par(s, o) == s.objs[o].parent
 FileOf(s, o) == s.objs[o].file
 Span(s, o) == <<s.objs[o].start, s.objs[o].end>>
-SlotsOf(s, o) == Meta[Kind(s, o)]
+SlotsOf(s, o) == TheMeta[Kind(s, o)]
 SlotIdx(s, o) == CHOOSE k \in 1..Len(SlotsOf(s, Par(s, o))) : SlotsOf(s, Par(s, o))[k].name = s.objs[o].slot
 \* the rule the grammar declares at the place that holds o (its own rule for a root)
 Decl(s, o) == IF Par(s, o) = 0 THEN Kind(s, o) ELSE SlotsOf(s, Par(s, o))[SlotIdx(s, o)].decl
@@ -219,7 +224,7 @@ RuleDict(s, D) == [f \in 1..NF(s) |-> RuleDictOf(s, f, D)]
 ----------------------------------------------------------------------------
 \* the state machine
 Init ==
-  /\ sid \in 1..Len(Scenarios)
+  /\ sid \in 1..Len(ScenarioSeq)
   /\ pc = "construct" /\ round = 0 /\ inited = FALSE /\ calls = <<>>
   /\ xr = [f \in 1..NF(sc) |-> <<>>]
   /\ cont = InitCont(sc)
@@ -233,7 +238,7 @@ FaultAt(kind) == sc.fault.on /\ sc.fault.proc = kind
 Construct ==
   /\ pc = "construct"
   /\ IF FaultAt("match")
-     THEN err' = ErrLoc(sc, Dev) /\ pc' = "failed"
+     THEN err' = ErrLoc(sc, TheDev) /\ pc' = "failed"
      ELSE err' = err /\ pc' = "resolve"
   /\ UNCHANGED <<sid, round, xr, inited, calls, cont, xrefs, rdict>>
 
@@ -266,7 +271,7 @@ CallProcessor(o) ==
          p == Par(sc, o)
      IN /\ calls' = Append(calls, [obj |-> o, rule |-> r, linked |-> AllResolved, inited |-> inited])
         /\ IF FaultAt("obj") /\ sc.fault.obj = o /\ sc.fault.rule = r
-           THEN err' = ErrLoc(sc, Dev) /\ pc' = "failed" /\ cont' = cont
+           THEN err' = ErrLoc(sc, TheDev) /\ pc' = "failed" /\ cont' = cont
            ELSE /\ err' = err /\ pc' = pc
                 /\ cont' = IF last /\ p # 0 /\ Result(sc, o) # Item(o)
                            THEN LET k == SlotIdx(sc, o) j == IndexIn(Kids(sc, p, k), o) IN
@@ -276,8 +281,8 @@ CallProcessor(o) ==
 
 ToolSupport ==
   /\ pc = "processors" /\ \A o \in Objs(sc) : Finished(o)
-  /\ xrefs' = [f \in 1..NF(sc) |-> XrefList(sc, xr[f], Dev)]
-  /\ rdict' = RuleDict(sc, Dev)
+  /\ xrefs' = [f \in 1..NF(sc) |-> XrefList(sc, xr[f], TheDev)]
+  /\ rdict' = RuleDict(sc, TheDev)
   /\ pc' = "done"
   /\ UNCHANGED <<sid, round, xr, inited, calls, cont, err>>
 
@@ -327,7 +332,7 @@ WalkOk(w, n) ==
                 Cardinality({i \in 1..(n - 1) : w[i].obj = d}) = Len(CallsOf(sc, d))
      /\ WalkOk(w, n + 1)
 C13_WalkIsBehaviour ==
-  pc = "construct" =>
+  pc = "resolve" /\ round = 0 =>
     LET w == WalkAll(sc) IN
     /\ WalkOk(w, 1)
     /\ \A o \in Objs(sc) : Cardinality({i \in 1..Len(w) : w[i].obj = o}) = Len(CallsOf(sc, o))
@@ -394,7 +399,7 @@ C34_DictByStart ==
   Done => \A f \in 1..NF(sc) : \A i, j \in 1..Len(rdict[f]) : i < j => rdict[f][i].start >= rdict[f][j].start
 \* the machine and the functions agree
 C34_Functions ==
-  Done => xrefs = Xrefs(sc, Dev) /\ rdict = RuleDict(sc, Dev)
+  Done => xrefs = Xrefs(sc, TheDev) /\ rdict = RuleDict(sc, TheDev)
           /\ \A f \in 1..NF(sc) : xr[f] = ResOrder(sc, f)
 
 \* well-formedness of what the configuration feeds in (checked as an invariant, too)
